@@ -5,6 +5,7 @@ package main
 import (
 	"fmt"
 	"go/token"
+	"sort"
 	"go/types"
 	"strings"
 
@@ -14,7 +15,7 @@ import (
 func init() {
 	register(&propDef{
 		id:      "C03",
-		explain: "Structural necessary conditions of 'what the server writes is framed as its own header says': (R1) the fixed-size body writer hands the body stream to the copy primitive only through a bounding writer built from the declared size, and every use of the inner writer inside that type is bounded by (or control-dependent on a comparison with) the remaining count; (R2) on every path of writeBodyFixedSize a nil error is returned only when the copied count was compared equal to the declared size; (R3) every body-emitting call of Response.Write / writeBodyStream is control-dependent on the no-body predicate (SkipBody / 1xx-204-304); (R4) in the serve loop HEAD is tested before the response is written and the response written then has SkipBody set; a timeout response is installed with SkipBody under IsHead() of the timed-out request; (R5) SetContentLength of both header types makes the framing headers exclusive on every path: installing a numeric Content-Length removes Transfer-Encoding, installing chunked clears the Content-Length bytes. (R6) every writeChunk call is either the terminator (a constant-empty argument, after which no further chunk is written in that function) or a data chunk whose length was tested non-zero on the way to the call - an empty data chunk is the last-chunk marker. (R7) in the chunk-writing read loop the bytes a Read returned are framed, or n was found zero, before that Read's error ends the loop or the next Read is made. (R8) the serve loop looks at the request method for the HEAD decision before the handler dispatch and never between the dispatch and the end of the iteration. Not decided: byte-exact agreement with an independent parser, trailers, chunk encoding itself.",
+		explain: "Structural necessary conditions of 'what the server writes is framed as its own header says': (R1) the fixed-size body writer hands the body stream to the copy primitive only through a bounding writer built from the declared size, and every use of the inner writer inside that type is bounded by (or control-dependent on a comparison with) the remaining count; (R2) on every path of writeBodyFixedSize a nil error is returned only when the copied count was compared equal to the declared size; (R3) every body-emitting call of Response.Write / writeBodyStream is control-dependent on the no-body predicate (SkipBody / 1xx-204-304); (R4) in the serve loop HEAD is tested before the response is written and the response written then has SkipBody set; a timeout response is installed with SkipBody under IsHead() of the timed-out request; (R5) SetContentLength of both header types makes the framing headers exclusive on every path: installing a numeric Content-Length removes Transfer-Encoding, installing chunked clears the Content-Length bytes. (R6) every writeChunk call is either the terminator (a constant-empty argument, after which no further chunk is written in that function) or a data chunk whose length was tested non-zero on the way to the call - an empty data chunk is the last-chunk marker. (R7) in the chunk-writing read loop the bytes a Read returned are framed, or n was found zero, before that Read's error ends the loop or the next Read is made. (R9) the flush of the connection writer after the serve loop is not control-dependent on a test of the error the function ends with (complete responses waiting in the buffer are delivered also when a later one failed); (R8) the serve loop looks at the request method for the HEAD decision before the handler dispatch and never between the dispatch and the end of the iteration. Not decided: byte-exact agreement with an independent parser, trailers, chunk encoding itself.",
 		run: func(p *Prog, r *Report) {
 			runC03Bounded(p, r)
 			runC03SendBody(p, r)
@@ -22,6 +23,7 @@ func init() {
 			runC03ChunkMarker(p, r)
 			runC03ReadData(p, r)
 			headDecidedBeforeHandler(p, r)
+			exitFlushIsUnconditional(p, r)
 			p.serveLoop("C03").report(r, "C03")
 			timeoutProducerRule(p, r, "C03")
 		},
@@ -664,4 +666,58 @@ func headDecidedBeforeHandler(p *Prog, r *Report) {
 		}
 	}
 	r.Floor("R8", "looks at the request method before the handler dispatch", n, 1)
+}
+
+// exitFlushIsUnconditional (C03.R9): when the serve function ends, what is still in the connection writer is flushed
+// whatever the reason for the end: the flush after the loop is not control-dependent on a test of the error the
+// function ends with. A response that failed comes after complete responses to earlier pipelined requests, which
+// were only waiting for the next flush.
+func exitFlushIsUnconditional(p *Prog, r *Report) {
+	fn, hcall, header, why := findServeLoop(p)
+	if fn == nil {
+		r.Undecided("R9", "serve loop", why)
+		return
+	}
+	n := 0
+	for _, b := range fn.Blocks {
+		// the flush every way out of the loop reaches: after the loop, and not only behind the handler dispatch
+		if inLoop(header, b) || hcall.Block().Dominates(b) {
+			continue
+		}
+		for _, in := range b.Instrs {
+			c, ok := in.(ssa.CallInstruction)
+			if !ok || c.Common().StaticCallee() == nil {
+				continue
+			}
+			f := c.Common().StaticCallee()
+			if f.Name() != "Flush" || recvTypeName(f) != "Writer" {
+				continue
+			}
+			// only the flush that follows the loop (not one in the prologue)
+			if !header.Dominates(b) {
+				continue
+			}
+			n++
+			var onErr []string
+			for _, g := range guardsOf(b) {
+				bo, ok := g.Cond.(*ssa.BinOp)
+				if !ok {
+					continue
+				}
+				// only tests made after the loop was left (the prologue's early returns dominate everything)
+				if ci, isI := g.Cond.(ssa.Instruction); !isI || !header.Dominates(ci.Block()) || inLoop(header, ci.Block()) {
+					continue
+				}
+				for _, o := range []ssa.Value{bo.X, bo.Y} {
+					if o != nil && strings.HasSuffix(o.Type().String(), "error") && !isNilConst(o) {
+						onErr = append(onErr, g.Atom)
+					}
+				}
+			}
+			sort.Strings(onErr)
+			r.Check("R9", "serve function: the flush of the connection writer at the end does not depend on the error the function ends with", len(onErr) == 0, p.Pos(c.Pos()),
+				"the final flush is guarded by a test of the error ("+strings.Join(onErr, ", ")+"): when the response to a later pipelined request fails, the complete responses to earlier requests that were still in the buffer are dropped with it")
+		}
+	}
+	r.Floor("R9", "flushes of the connection writer after the serve loop", n, 1)
 }
